@@ -1357,10 +1357,17 @@ structure Unaffected (A : Aff) (st : St) : Prop where
   inv : AInv st []
   base : Base A st.tree
   conf : Conf A st.tree st.binds
-  own : Own A st
+
+/-- Outside a dispatch every live window is owned by the application (its count is what the application owns). -/
+theorem own_of_ainv (A : Aff) {st : St} (h : AInv st []) : Own A st := by
+  intro x w _ hw hf
+  have h1 := h.rc x w hw hf
+  have h2 := h.pos x w hw hf
+  simp only [List.count_nil] at h1
+  omega
 
 theorem Unaffected.dinv {A : Aff} {st : St} (h : Unaffected A st) : DInv A st.tree [] st :=
-  ⟨⟨h.inv, tableOK_all _⟩, Sim.refl h.base.down, h.conf, h.own⟩
+  ⟨⟨h.inv, tableOK_all _⟩, Sim.refl h.base.down, h.conf, own_of_ainv A h.inv⟩
 
 def downCheck (A : Aff) (t : Tree) : Bool :=
   (List.range t.wins.size).all fun x =>
@@ -1447,28 +1454,15 @@ theorem confCheck_sound {A : Aff} {t : Tree} {binds : Array Binding} (h : confCh
     exact Or.inr ⟨trivial, this.1, focusOKCheck_sound this.2⟩
   all_goals first | exact Or.inl trivial | exact Or.inl this
 
-def ownCheck (A : Aff) (st : St) : Bool :=
-  (List.range st.tree.wins.size).all fun x =>
-    match st.tree.wins[x]? with
-    | some w => A x || w.freed || decide (1 ≤ st.owned.getD x 0)
-    | none => true
-
-theorem ownCheck_sound {A : Aff} {st : St} (h : ownCheck A st = true) : Own A st := by
-  intro x w hx hw hf
-  unfold ownCheck at h
-  rw [List.all_eq_true] at h
-  have := h x (List.mem_range.2 (Array.getElem?_eq_some_iff.1 hw).1)
-  simpa [hw, hx, hf] using this
-
 def unaffectedCheck (A : Aff) (st : St) : Bool :=
-  ainvCheck st && downCheck A st.tree && stealFrontCheck A st.tree && confCheck A st.tree st.binds && ownCheck A st
+  ainvCheck st && downCheck A st.tree && stealFrontCheck A st.tree && confCheck A st.tree st.binds
 
 theorem unaffectedCheck_sound {A : Aff} {st : St} (h : unaffectedCheck A st = true) : Unaffected A st := by
   unfold unaffectedCheck at h
   simp only [Bool.and_eq_true] at h
-  obtain ⟨⟨⟨⟨h1, h2⟩, h3⟩, h4⟩, h5⟩ := h
+  obtain ⟨⟨⟨h1, h2⟩, h3⟩, h4⟩ := h
   have hi := ainvCheck_sound h1
-  exact ⟨hi, ⟨hi.tree, downCheck_sound h2, stealFrontCheck_sound h3⟩, confCheck_sound h4, ownCheck_sound h5⟩
+  exact ⟨hi, ⟨hi.tree, downCheck_sound h2, stealFrontCheck_sound h3⟩, confCheck_sound h4⟩
 
 end WinInput
 end Tickit
